@@ -16,7 +16,7 @@ from ..worlds import relay
 ID = "C04"
 LEVEL = "exploration"
 CHUNK = 40
-BUDGET = {"quick": {"runs": 2500, "wall": 150}, "thorough": {"runs": 100000, "wall": 3000}}
+BUDGET = {"quick": {"runs": 2500, "wall": 150}, "thorough": {"runs": 100000, "wall": 1200}}
 RULE = ("validly signed events with contents over all Unicode planes / NUL / escapes / quotes and tag "
         "arrays containing empty strings, numbers, big integers, floats, booleans, null, nested arrays, "
         "single elements; subscription ids with quotes, backslashes, control characters, U+2028, non-BMP, "
